@@ -40,7 +40,10 @@ class RoundRobin(TMGRSchedulingComponent):
         # pilots just got added.  If we did not have any pilot before, we might
         # have tasks in the wait queue waiting -- now is a good time to take
         # care of those!
-        with self._wait_lock:
+        # lock order as everywhere else in the scheduler: pilots, then wait
+        # pool (the work thread holds the pilots lock when it takes the wait
+        # pool lock - the inverse order here can deadlock the two threads)
+        with self._pilots_lock, self._wait_lock:
 
             self._log.debug('add pilot - waitpool %d', len(self._wait_pool))
 
